@@ -264,3 +264,35 @@ def write_cfg(name: str, *, spec: str = "Spec", constants: dict | None = None, i
     with open(path, "w") as f:
         f.write("\n".join(lines) + "\n")
     return path
+
+
+def simulate(module: str, cfg: str, *, num: int, depth: int, seed: int = 0, timeout: int = 600) -> list:
+    """TLC random simulation: returns behaviours [[dict(action=, args=[...], state={var: value})...]] parsed from the
+    per-behaviour TLA+ files TLC writes (`\\* <Action(args) line ...>` + `STATE_n == /\\ var = value ...`)."""
+    os.makedirs(WORK, exist_ok=True)
+    d = tempfile.mkdtemp(prefix="sim-", dir=WORK)
+    meta = tempfile.mkdtemp(prefix="tlc-", dir=WORK)
+    cmd = ["timeout", str(timeout), "java", "-XX:+UseParallelGC", "-Xss512m", "-cp", JAVA_CP, "tlc2.TLC", "-workers", "1", "-deadlock", "-metadir", meta,
+           "-noGenerateSpecTE", "-seed", str(seed), "-simulate", "file=%s/b,num=%d" % (d, num), "-depth", str(depth), "-config", cfg, module]
+    try:
+        p = subprocess.run(cmd, cwd=SPEC, stdout=subprocess.PIPE, stderr=subprocess.STDOUT, text=True)
+        if p.returncode not in (0, 12):
+            raise TlcFailure("TLC simulation failed rc=%d: %s" % (p.returncode, p.stdout[-2000:]))
+        out = []
+        for fn in sorted(os.listdir(d), key=lambda x: [int(t) if t.isdigit() else t for t in re.split(r"(\d+)", x)]):
+            txt = open(os.path.join(d, fn)).read()
+            beh = []
+            for m in re.finditer(r"\\\* <(\w+)(?:\(([^>]*?)\))? line [^>]*>\s*\nSTATE_\d+ ==\s*\n((?:/\\ .*\n(?:  .*\n)*)+)", txt):
+                act, args, body = m.group(1), m.group(2), m.group(3)
+                st = {}
+                for vm in re.finditer(r"/\\ (\w+) = ((?:.*\n)(?:  .*\n)*)", body):
+                    try:
+                        st[vm.group(1)] = parse_tla_value(vm.group(2).strip())
+                    except Exception:
+                        st[vm.group(1)] = vm.group(2).strip()
+                beh.append(dict(action=act, args=[parse_tla_value(a.strip()) for a in args.split(",")] if args else [], state=st))
+            out.append(beh)
+        return out
+    finally:
+        shutil.rmtree(d, ignore_errors=True)
+        shutil.rmtree(meta, ignore_errors=True)
